@@ -88,10 +88,13 @@ def load_configs(rng: random.Random, quick: bool) -> list[dict]:
     # names whose order differs between "by name" and "by stem" / natural / case-folded orders
     tricky = ["overwrite.json", "overwrite-local.json", "overwrite local.json", "overwrite+x.json", "Overwrite.json",
               "overwrite.v2.json", "overwrite_2.json", "overwrite10.json", "overwrite2.json", "ÿ.json"]
+    v2doc = {"expand_from": "bank_codes", "expand_into": "bank_code",
+             "entries": [{"country_code": "DK", "name": "V", "bank_codes": ["1", "2"]}]}
     for a, b in itertools.permutations(tricky, 2):
-        cfgs.append({"kind": "dict", "files": [(a, {"k": {"v": 1, "a": a}}), (b, {"k": {"v": 2, "b": b}})]})
         if not a.endswith("v2.json") and not b.endswith("v2.json"):
-            cfgs.append({"kind": "list", "files": [(a, [a]), (b, [b])]})
+            cfgs.append({"kind": "dict", "files": [(a, {"k": {"v": 1, "a": a}}), (b, {"k": {"v": 2, "b": b}})]})
+        cfgs.append({"kind": "list", "files": [(a, v2doc if a.endswith("v2.json") else [a]),
+                                               (b, v2doc if b.endswith("v2.json") else [b])]})
     for n in (2, 3):
         for ds in itertools.permutations(deep, n):
             cfgs.append({"kind": "dict", "files": list(zip(["generated.json", "overwrite.json", "zz.json"][:n], ds))})
